@@ -724,3 +724,23 @@ Proof.
     + apply Nat.eqb_eq in E. exfalso. apply H1. rewrite E. apply in_map. exact Hin.
     + apply IH; assumption.
 Qed.
+
+(* the configuration (mode, watch mode, which version of reset) never changes *)
+Lemma step_config : forall st a st' evs,
+  step st a = Some (st', evs) ->
+  cfg_fixed st' = cfg_fixed st /\ cfg_mode st' = cfg_mode st /\ cfg_manual st' = cfg_manual st.
+Proof.
+  intros st a st' evs H. destruct a.
+  15: { cbn in H. destruct (loop st) as [l|] eqn:El; [|discriminate]. unfold loop_step in H.
+        destruct (lp l) eqn:Elp;
+          unfold step_conn, step_sync_init, step_top, step_poll, step_scan, step_rescan_wait, step_reconcile,
+                 step_stage, step_trans, step_save, step_respond, step_end, step_after, step_exit in H;
+          try rewrite Elp in H; crunch; repeat split; reflexivity. }
+  all: unfold_steps H; crunch; repeat split; reflexivity.
+Qed.
+
+Lemma reach_fixed : forall md manual st tr, reach (init_state md manual) st tr -> cfg_fixed st = true.
+Proof.
+  intros md manual st tr H. induction H; [reflexivity|].
+  destruct (step_config _ _ _ _ H0) as [E _]. congruence.
+Qed.
